@@ -30,8 +30,8 @@ RULE = ("complete grid of 9 operators x pool values (real nodes loaded from YAML
         "non-empty; distinct by (op, value source text, term) resp. (doc, op, term)")
 ASSUMPTIONS = ["cells where the documentation is silent (string-spelled numbers for = and ordering, booleans as numbers, "
                "text of null / bare booleans, exotic numeric spellings as terms) are counted as abstentions, not judged"]
-REACH = [("yamlpath/common/searches.py", 23, 123, "Searches.search_matches"),
-         ("yamlpath/processor.py", 1311, 1512, "Processor._get_nodes_by_search")]
+REACH = [("yamlpath/common/searches.py", "search_matches", "Searches.search_matches"),
+         ("yamlpath/processor.py", "_get_nodes_by_search", "Processor._get_nodes_by_search")]
 EXHAUSTIVE_NOTE = "the operator x value-pool x term-pool grid (sizes in counters grid_cells)"
 SIZES = {"quick": dict(rnd=400000, part=60000), "thorough": dict(rnd=2500000, part=250000)}
 REQUIRED_COUNTERS = ["grid_cells", "grid_decided", "partition_checked"]
